@@ -620,11 +620,17 @@ def intervals_for(facts, fn, tables=None, depth=2, call_ranges=None):
     pr = {}
     if depth > 0:
         callers = []
+        # a call of a target-multiversioned function may dispatch to any of its versions
+        versions = {fn.id}
+        if any(a.startswith('target:') for a in fn.attrs):
+            for h in facts.functions:
+                if h.qn == fn.qn and len(h.params) == len(fn.params) and any(a.startswith('target:') for a in h.attrs):
+                    versions.add(h.id)
         for g in facts.functions:
-            if g.id == fn.id:
+            if g.id in versions:
                 continue
             for bid, i, s, e in g.walk():
-                if e.get('k') == 'call' and e.get('cid') == fn.id:
+                if e.get('k') == 'call' and e.get('cid') in versions:
                     callers.append((g, bid, i, e))
         if callers:
             acc = {}
